@@ -258,10 +258,105 @@ func wideRunBatch(evs []*wideEvent) {
 	})
 }
 
+// wideDisplayEvents (property C04: "integral numbers without a decimal point, other numbers in shortest
+// round-trip decimal"): a double is shown by a line; what is shown, read back as a decimal, is that double
+// again (signed zeros alike), and an integral number is shown without a decimal point.
+func wideDisplayEvents(rnd *rand.Rand, n int) []*wideEvent {
+	fixed := []float64{1e19, 9223372036854775808, 18446744073709551616, 1e21, 1e22, 1e300, -1e19, -9223372036854775808, 4611686018427387904 * 2,
+		9007199254740993, 1e15, 1e16, 123456789012345680, math.Inf(1), math.Inf(-1), math.NaN(), 0, math.Copysign(0, -1), 0.1, 1.0 / 3, 5e-324, 1e-7, 2.5e-5}
+	var evs []*wideEvent
+	for i := 0; i < n; i++ {
+		v := wideOperand(rnd)
+		if i < len(fixed) {
+			v = fixed[i]
+		} else if rnd.Intn(4) == 0 {
+			v = math.Trunc(v * 1e6) // big integral values
+		}
+		evs = append(evs, &wideEvent{ID: i + 1, Op: "disp", Form: "var", A: wideTok(v), B: ""})
+	}
+	return evs
+}
+
+func wideNormZero(f float64) float64 {
+	if f == 0 {
+		return 0
+	}
+	return f
+}
+
+func wideRunDisplay(evs []*wideEvent) {
+	var sb strings.Builder
+	sb.WriteString("title: Start\n---\n")
+	storer := variable.NewInMemoryStorer()
+	for i, e := range evs {
+		storer.SetNumberValue(fmt.Sprintf("a%d", i), wideFromTok(e.A))
+		e.Src = fmt.Sprintf("{$a%d}", i)
+		e.Exp = wideTok(wideNormZero(wideFromTok(e.A)))
+		e.Got = "norun"
+		fmt.Fprintf(&sb, "D%d <{$a%d}>\n", i, i)
+	}
+	sb.WriteString("===\n")
+	guarded(func() {
+		dr, err := ysgo.NewDialogueRunner(storer, "", strings.NewReader(sb.String()))
+		if err != nil {
+			return
+		}
+		for i, e := range evs {
+			var el *ysgo.DialogueElement
+			var nerr error
+			if !guarded(func() { el, nerr = dr.Next(0) }) {
+				e.Got = "panic"
+				return
+			}
+			if nerr != nil || el == nil || el.Line == nil {
+				e.Got = "err"
+				continue
+			}
+			text := el.Line.Text
+			a, b := strings.Index(text, "<"), strings.LastIndex(text, ">")
+			if !strings.HasPrefix(text, fmt.Sprintf("D%d ", i)) || a < 0 || b < a {
+				e.Got = "desync"
+				continue
+			}
+			shown := text[a+1 : b]
+			back, perr := strconv.ParseFloat(shown, 64)
+			v := wideFromTok(e.A)
+			switch {
+			case perr != nil:
+				e.Got = "unparsable"
+			case v == math.Trunc(v) && math.Abs(v) < 1<<63 && strings.Contains(shown, "."):
+				// (beyond the 64-bit integers exponent notation with a mantissa point is tolerated: only the value counts there)
+				e.Got = "haspoint"
+			default:
+				e.Got = wideTok(wideNormZero(back))
+			}
+		}
+	})
+}
+
 func coreWideArith(m map[string]string) error {
 	w, err := newNDJSON(m["out"])
 	if err != nil {
 		return err
+	}
+	if m["display"] == "1" {
+		evs := wideDisplayEvents(rand.New(rand.NewSource(Seed()*37+5)), argInt(m, "n", 2000))
+		const batch = 200
+		nb := (len(evs) + batch - 1) / batch
+		parallelFor(nb, func(bi int) {
+			hi := (bi + 1) * batch
+			if hi > len(evs) {
+				hi = len(evs)
+			}
+			wideRunDisplay(evs[bi*batch : hi])
+		})
+		for _, e := range evs {
+			if err := w.Write(e); err != nil {
+				return err
+			}
+		}
+		fmt.Printf("{\"events\":%d}\n", len(evs))
+		return w.Close()
 	}
 	if m["strings"] == "1" {
 		evs := wideStringEvents()
